@@ -1641,8 +1641,13 @@ class PackBasedObjectStore(PackCapableObjectStore, PackedObjectContainer):
           progress: Optional progress reporting function.
         Returns: Pack object of the objects written.
         """
-        count = len(objects)
-        record_iter = (full_unpacked_object(o) for (o, p) in objects)
+        # An object listed twice (one blob at two paths) goes into the pack
+        # once: git rejects a pack in which an object appears twice.
+        unique: dict[ObjectID, ShaFile] = {}
+        for o, _path in objects:
+            unique.setdefault(o.id, o)
+        count = len(unique)
+        record_iter = (full_unpacked_object(o) for o in unique.values())
         return self.add_pack_data(count, record_iter, progress=progress)
 
 
